@@ -58,8 +58,16 @@ class EmptyBatchError(Exception):
         return 0
 
 
+class BadStrError(Exception):
+    """an error whose text is built from a template and the template look-up fails: str(exc) raises"""
+
+    def __str__(self) -> str:
+        raise KeyError("no template for this error")
+
+
 EXC: Dict[str, type] = {
     "EmptyBatchError": EmptyBatchError,
+    "BadStrError": BadStrError,
     "ValueError": ValueError,
     "MyErr": MyErr,
     "KeyboardInterrupt": KeyboardInterrupt,
@@ -146,13 +154,14 @@ class ScriptedBroker(AsyncBroker):
         while self.pos < len(self.script):
             i = self.pos
             at, data, ackkind = self.script[i]
-            if self.fault_at is not None and i == self.fault_at:
-                self.fault_at = None
-                self.tr.add("stream_fault")
-                raise ConnectionError("connection to the broker lost")     # the subscription breaks; listen() fails
             d = at - loop.time()
             if d > 0:
                 await asyncio.sleep(d)
+            if self.fault_at is not None and i == self.fault_at:
+                # at the instant message i would have been handed over the subscription breaks instead; listen() fails
+                self.fault_at = None
+                self.tr.add("stream_fault")
+                raise ConnectionError("connection to the broker lost")
             if ackkind is None:
                 item: Any = data
             elif ackkind == "future":
@@ -514,7 +523,28 @@ def run_worker(sc: Dict[str, Any], register: Optional[Callable[..., None]] = Non
             loop.call_at(sc["stop"], _stop)
         if sc.get("register_at") is not None and hasattr(b, "_vt_register_dyn"):
             loop.call_at(sc["register_at"], b._vt_register_dyn)   # a task registered while the worker is running
-        lt = asyncio.ensure_future(r.listen(ev))
+        if sc.get("via_api"):
+            # the programmatic way to run a worker: taskiq.api.run_receiver_task, which subscribes again after a failed listen()
+            import taskiq.api.receiver as _apir
+
+            class _InlinePool(Inline):
+                def __init__(self, max_workers: Any = None) -> None:
+                    super().__init__()
+
+                def __enter__(self) -> Any:
+                    return self
+
+                def __exit__(self, *a: Any) -> None:
+                    return None
+
+            _saved_pool = _apir.ThreadPoolExecutor
+            _apir.ThreadPoolExecutor = _InlinePool  # type: ignore[misc,assignment]
+            res["_restore"] = lambda: setattr(_apir, "ThreadPoolExecutor", _saved_pool)
+            lt = asyncio.ensure_future(_apir.run_receiver_task(
+                b, validate_params=bool(sc.get("validate", True)), max_async_tasks=sc.get("A"), max_prefetch=sc.get("P", 0),
+                propagate_exceptions=bool(sc.get("propagate", True)), run_startup=False, ack_time=AcknowledgeType(sc.get("ack_type", "when_saved"))))
+        else:
+            lt = asyncio.ensure_future(r.listen(ev))
         done, _ = await asyncio.wait({lt}, timeout=sc.get("horizon", 100.0))
         if lt in done:
             tr.add("return")
@@ -572,6 +602,8 @@ def run_worker(sc: Dict[str, Any], register: Optional[Callable[..., None]] = Non
             loop.close()
             asyncio.set_event_loop(None)
     AsyncBroker.global_task_registry.pop("shtask", None)
+    if res.get("_restore"):
+        res.pop("_restore")()
     if _orig_time is not None:
         _rr.time = _orig_time  # type: ignore[attr-defined]
     res.setdefault("trace", list(tr.ev))
